@@ -344,14 +344,21 @@ func (r *runningRoutine) execute(
 				} else if r.r.routine == r {
 					dur := r.r.retryBo.NextBackOff()
 					if dur != backoff.Stop {
-						r.deferRetry = time.AfterFunc(dur, func() {
+						var timer *time.Timer
+						timer = time.AfterFunc(dur, func() {
 							r.r.bcast.HoldLock(func(broadcast func(), getWaitCh func() <-chan struct{}) {
+								// ignore a timer that was stopped or replaced after it fired
+								if r.deferRetry != timer {
+									return
+								}
+								r.deferRetry = nil
 								if r.r.ctx != nil && r.r.routine == r && r.exited {
 									r.start(r.r.ctx, r.exitedCh, true)
 								}
 								broadcast()
 							})
 						})
+						r.deferRetry = timer
 					}
 				}
 			}
